@@ -32,6 +32,9 @@ RULE += (
 RULE += (
     ' Round 9: an eighth of the schema nodes gets a keyword the vocabulary does not know whose NAME means something on the Python side (self, cls, args, kwargs, name, value, annotation, __init__, __class__, ...), with an arbitrary JSON value.'
 )
+RULE += (
+    ' Round 10: count keywords also take 10**400 and 2**1024 (integers no float can hold); boolean documents go through the documented loader as well.'
+)
 ASSUMPTIONS = [
     "patterns come from a pool of valid Python regexes without nested quantifiers",
     "nesting depth <= 40 keeps the harness and the library far from the 1000-frame interpreter limit",
@@ -122,7 +125,8 @@ def widen(draw, schema, flags, depth=0):
         flags.add("extreme-multipleOf")
     for kw in ("minLength", "maxLength", "minItems", "maxItems", "minProperties", "maxProperties"):
         if kw in s and draw(st.integers(0, 3)) == 0:
-            s[kw] = draw(st.sampled_from([float(s[kw]), 10 ** 30, 2.0, 0.0]))
+            # (10 ** 400 does not fit a float: formatting or comparing it as one overflows)
+            s[kw] = draw(st.sampled_from([float(s[kw]), 10 ** 30, 10 ** 400, 2 ** 1024, 2.0, 0.0]))
             flags.add("float-or-huge-count")
     if "format" in s and draw(st.booleans()):
         s["format"] = draw(st.sampled_from(["uuid", "date-time"]))
